@@ -467,6 +467,7 @@ func (u *Unit) closure(lit *ast.FuncLit, env *Env) Value {
 		}
 		base2 := len(sub.pc)
 		_ = base
+		declMark := len(u.D.order)
 		saveRes, saveTys := u.results, u.resTys
 		u.results = nil
 		u.resTys = nil
@@ -510,8 +511,66 @@ func (u *Unit) closure(lit *ast.FuncLit, env *Env) Value {
 			lhs := App(name, rs, append([]Term{clo}, params...)...)
 			var conj []Term
 			for _, o := range rets {
-				conds := o.env.pc[base2:]
-				conj = append(conj, Imp(And(conds...), Same(lhs, o.vals[i].Term)))
+				conds := append([]Term(nil), o.env.pc[base2:]...)
+				val := o.vals[i].Term
+				// constants introduced while executing the body that are *defined* by an equation among the conditions (results
+				// of calls by contract: r == <term over the parameters>) are eliminated by substitution, so that the axiom
+				// speaks about all arguments and not about one fixed result
+				for _, d := range u.D.order[declMark:] {
+					if !strings.HasPrefix(d, "(declare-const ") {
+						continue
+					}
+					rest := strings.TrimSuffix(strings.TrimPrefix(d, "(declare-const "), ")")
+					k := strings.Index(rest, " ")
+					if k < 0 {
+						continue
+					}
+					cname := rest[:k]
+					if cname == clo.S {
+						continue
+					}
+					for ci, cd := range conds {
+						pre := "(= " + cname + " "
+						if strings.HasPrefix(cd.S, pre) && strings.HasSuffix(cd.S, ")") {
+							def := cd.S[len(pre) : len(cd.S)-1]
+							if containsToken(def, cname) || !balanced(def) {
+								continue
+							}
+							conds = append(conds[:ci:ci], conds[ci+1:]...)
+							for cj := range conds {
+								conds[cj] = Term{replaceToken(conds[cj].S, cname, def), conds[cj].Sort}
+							}
+							val = Term{replaceToken(val.S, cname, def), val.Sort}
+							break
+						}
+					}
+				}
+				// a fresh clock constrained only from below (left by a call that allocates at most) can always be chosen: such
+				// conditions do not restrict the arguments
+				for _, d := range u.D.order[declMark:] {
+					if !strings.HasPrefix(d, "(declare-const clk!") {
+						continue
+					}
+					cname := strings.SplitN(strings.TrimPrefix(d, "(declare-const "), " ", 2)[0]
+					if containsToken(val.S, cname) {
+						continue
+					}
+					var keep []Term
+					droppable := true
+					for _, cd := range conds {
+						if !containsToken(cd.S, cname) {
+							keep = append(keep, cd)
+							continue
+						}
+						if !(strings.HasPrefix(cd.S, "(<= ") && strings.HasSuffix(cd.S, " "+cname+")") && !containsToken(cd.S[:len(cd.S)-len(cname)-1], cname)) {
+							droppable = false
+						}
+					}
+					if droppable {
+						conds = keep
+					}
+				}
+				conj = append(conj, Imp(And(conds...), Same(lhs, val)))
 			}
 			body := And(conj...)
 			// generalise the parameter constants into bound variables
@@ -561,6 +620,46 @@ func replaceToken(s, old, new string) string {
 		i = end
 	}
 	return b.String()
+}
+
+// one complete s-expression (or atom)?
+func balanced(s string) bool {
+	depth := 0
+	for i := 0; i < len(s); i++ {
+		switch s[i] {
+		case '(':
+			depth++
+		case ')':
+			depth--
+			if depth < 0 {
+				return false
+			}
+			if depth == 0 && i != len(s)-1 {
+				return false
+			}
+		case ' ':
+			if depth == 0 {
+				return false
+			}
+		}
+	}
+	return depth == 0
+}
+
+func containsToken(s, tok string) bool {
+	i := 0
+	for {
+		j := strings.Index(s[i:], tok)
+		if j < 0 {
+			return false
+		}
+		j += i
+		end := j + len(tok)
+		if (j == 0 || isDelim(s[j-1])) && (end >= len(s) || isDelim(s[end])) {
+			return true
+		}
+		i = end
+	}
 }
 
 func isDelim(c byte) bool { return c == ' ' || c == '(' || c == ')' || c == '\n' }
